@@ -662,6 +662,13 @@ func (h *c05h) judgeVal(tk *verifbubble.Task, height int, servedOK map[int]bool,
 			}
 			return c.Fail("C05", "C05:"+kind, "GetCFilter(T%d) returned a filter that does not hash, with the committed filter header of T%d, to the committed filter header of T%d", height, height-1, height)
 		}
+		if !servedOK[height] {
+			// the bytes are right, but no response that may be accepted
+			// ever carried them: they were taken from one of the responses
+			// the statement says are never returned (another filter type,
+			// another block, unsolicited, ...)
+			return c.Fail("C05", "C05:filter-taken-from-a-response-to-reject", "GetCFilter(T%d) returned a filter although no acceptable response for that block was ever delivered: it was taken from a response that has to be rejected (wrong filter type / block / unsolicited)", height)
+		}
 		return false
 	}
 	if blk == nil {
